@@ -246,21 +246,25 @@ Definition hec_build (h : hec) : event :=
   | HObj fs => map (fun kv => (p_event ++ fst kv, via_f64 (snd kv))) fs
   end.
 
-(* 3.3 Loki JSON push: ONE map per stream, filled with the labels, then reused for every line *)
+(* 3.3 Loki JSON push: every line gets its own map: the stream labels, then the line's
+   timestamp and text, then its structured metadata *)
 Record loki_line := { ll_ts : bytes; ll_line : bytes; ll_meta : event }.
 Definition k_line := s2b "line".
 Definition loki_apply (m : event) (l : loki_line) : event :=
   map_set_all (ll_meta l) (map_set k_line (SStr (ll_line l)) (map_set k_timestamp (SStr (ll_ts l)) m)).
+Definition loki_line_spec (labels : event) (l : loki_line) : event :=
+  loki_apply (map_set_all labels []) l.
+Definition loki_build (labels : event) (ls : list loki_line) : list event :=
+  map (loki_line_spec labels) ls.
+(* PRE-FIX code (no longer the code): ONE map per stream, filled with the labels, then
+   reused for every line *)
 Fixpoint loki_stream (m : event) (ls : list loki_line) : list event :=
   match ls with
   | [] => []
   | l :: r => let m' := loki_apply m l in m' :: loki_stream m' r
   end.
-Definition loki_build (labels : event) (ls : list loki_line) : list event :=
+Definition loki_build_prefix (labels : event) (ls : list loki_line) : list event :=
   loki_stream (map_set_all labels []) ls.
-(* what a fresh map per line would give (the intended meaning of the push) *)
-Definition loki_line_spec (labels : event) (l : loki_line) : event :=
-  loki_apply (map_set_all labels []) l.
 
 (* 3.4 OTLP logs: recordInfo marshalled by encoding/json, nested keys flattened with dots *)
 Record otlp_res := { r_attrs : event; r_dropped : N; r_schema : bytes }.
@@ -432,8 +436,15 @@ Definition is_word (b : N) : bool :=
   ((48 <=? b) && (b <=? 57)) || ((65 <=? b) && (b <=? 90)) || ((97 <=? b) && (b <=? 122)) || (b =? 95).
 Definition sanitize (s : bytes) : bytes := map (fun b => if is_word b then b else 95) s.  (* ASCII *)
 Inductive mnum := MDouble (d : dyad) | MInt (z : Z).
-(* Value: uint64(dataPoint.GetAsDouble()), later float64(Value); as_int points read 0 *)
+(* numberDataPointValue: as_double as it is, as_int through float64(int64) *)
 Definition otlp_metric_val (v : mnum) : dyad :=
+  match v with
+  | MDouble d => d
+  | MInt z => dy_int (f64_round z)
+  end.
+(* PRE-FIX code (no longer the code): Value was uint64(dataPoint.GetAsDouble()), later
+   float64(Value); as_int points read 0 *)
+Definition otlp_metric_val_prefix (v : mnum) : dyad :=
   match v with
   | MDouble d => dy_int (f64_round (dy_trunc d))
   | MInt _ => dy_int 0
